@@ -47,14 +47,14 @@ func specFor(prop, tier string) MassSpec {
 		}}
 	case "C04":
 		if thorough {
-			return MassSpec{Deviations: 1, WithPanic: true, Intercept: true, ExtraCases: MirrorCases(), ExtraOps: append(CorpusOps(), FaultOps()...), Gens: []GenCfg{
+			return MassSpec{Deviations: 1, WithPanic: true, Intercept: true, ExtraCases: append(MirrorCases(), FaultCases()...), ExtraOps: append(CorpusOps(), FaultOps()...), Gens: []GenCfg{
 				{Root: "Query", Fields: fieldsFor("core"), Conds: ProbeConds, MaxNodes: 4, Spreads: true},
 				{Root: "Query", Fields: fieldsFor("wide"), Conds: ProbeConds, MaxNodes: 3, Aliases: true},
 				{Root: "Mutation", Fields: fieldsFor("core"), Conds: ProbeConds, MaxNodes: 4},
 				{Root: "Query", Fields: fieldsFor("core"), Conds: ProbeConds, MaxNodes: 3, Dev: 2},
 			}}
 		}
-		return MassSpec{Deviations: 1, WithPanic: true, Intercept: true, ExtraCases: MirrorCases(), ExtraOps: append(CorpusOps(), FaultOps()...), Gens: []GenCfg{
+		return MassSpec{Deviations: 1, WithPanic: true, Intercept: true, ExtraCases: append(MirrorCases(), FaultCases()...), ExtraOps: append(CorpusOps(), FaultOps()...), Gens: []GenCfg{
 			{Root: "Query", Fields: fieldsFor("core"), Conds: ProbeConds, MaxNodes: 4},
 			{Root: "Query", Fields: fieldsFor("wide"), Conds: ProbeConds, MaxNodes: 3},
 			{Root: "Mutation", Fields: fieldsFor("core"), Conds: ProbeConds, MaxNodes: 3},
@@ -104,6 +104,25 @@ func MirrorCases() []Case {
 		c(`{ts{x:peerReq{id}}}`, "ts[0].x", "error", "ts[1].x", "null"),
 		c(`{x:t{req} y:t{req}}`, "x.req", "error", "y.req", "error"),
 		c(`{t{times} ts{times}}`, "t.times[0]", "null", "ts[0].times[0]", "null"),
+	}
+}
+
+// FaultCases: hand-written fault cases beyond one deviation: an element-level panic in a
+// list of exactly ONE element (the generated marshaller has a fast path for it), and
+// several panics presented by gqlgen's own DefaultRecover (no recover function configured).
+func FaultCases() []Case {
+	c := func(q string, kv ...string) Case { return Case{Op: Op{Text: q}, Plan: planOf(kv...)} }
+	d := func(q string, kv ...string) Case {
+		return Case{Op: Op{Text: q}, Plan: planOf(kv...), DefaultRecover: true}
+	}
+	return []Case{
+		c(`{peers{id} str}`, "peers", "len1", "peers[0]", "rogue"),
+		c(`{t{id} peers{id peer{id}}}`, "peers", "len1", "peers[0]", "rogue"),
+		c(`{ts{name}}`, "ts", "len1", "ts[0].name", "panic"),
+		d(`{t{name req} str}`, "t.name", "panic", "t.req", "panic"),
+		d(`{ts{name}}`, "ts[0].name", "panic", "ts[1].name", "panic"),
+		d(`{t{kid{name}} node{id}}`, "t.kid.name", "panic"),
+		d(`{t{name}}`, "t.name", "panic"),
 	}
 }
 
